@@ -858,10 +858,50 @@ def _worker(job):
                 out["timeouts"].append({"group": "stack-readout", "grammar": gtext, "passes": list(PASS_NAMES)})
             finally:
                 signal.alarm(0)
-    if prop == "C05":
+    if prop in ("C02", "C16") or (tier == "thorough" and prop in ("C01", "C04")):
+        # the shapes the skip and squash passes rewrite x every short input over a small alphabet
+        for kind in ("skip", "squash"):
+            inputs3 = small_inputs("abc", 6 if tier == "thorough" else 5) if kind == "skip" else \
+                small_inputs("abAB1", 4 if tier == "thorough" else 3) + ["ab1", "abc", "aBc", "1a", "\n", "\r\n", "ba b"]
+            for _ in range(10 if tier == "thorough" else 2):
+                rules = G.gen_skip_template(rng) if kind == "skip" else G.gen_squash_template(rng)
+                if not G.well_formed(rules):
+                    continue
+                gtext = G.show_grammar(rules)
+                signal.alarm(120)
+                try:
+                    eval_grammar(prop, rng, "opt-template:" + kind, gtext, rules, choose_passes(rng, rng.randrange(3)),
+                                 [("r", t, (0 if prop != "C16" else rng.randint(0, len(t)))) for t in inputs3], out)
+                    out["stats"]["opt_template_grammars"] += 1
+                except Timeout:
+                    out["timeouts"].append({"group": "opt-template", "grammar": gtext, "passes": list(PASS_NAMES)})
+                finally:
+                    signal.alarm(0)
+    if prop == "C04" or (tier == "thorough" and prop in ("C01", "C06")):
+        # chains of four rules under every assignment of modifiers, with a blank at every subset of the gaps
+        import itertools as _it
+        all_mods = list(_it.product(["", "_", "@", "$", "!"], repeat=4))
+        nsh = do_bundled[1] if do_bundled else NCPU
+        mine = [m for j, m in enumerate(all_mods) if j % nsh == shard]
+        if tier != "thorough":
+            mine = rng.sample(mine, min(len(mine), 7))
+        inputs4 = G.chain_inputs(4)
+        for mods in mine:
+            rules = G.modifier_chain(mods, ws_silent=rng.random() < 0.7)
+            gtext = G.show_grammar(rules)
+            signal.alarm(120)
+            try:
+                eval_grammar(prop, rng, "modifier-chain", gtext, rules, choose_passes(rng, rng.randrange(2)),
+                             [("r0", t, 0) for t in inputs4], out)
+                out["stats"]["modifier_chain_grammars"] += 1
+            except Timeout:
+                out["timeouts"].append({"group": "modifier-chain", "grammar": gtext, "passes": list(PASS_NAMES)})
+            finally:
+                signal.alarm(0)
+    if prop in ("C05", "C07"):
         # every balanced history of push / drop / [commit] / [abort] up to a length, as a grammar whose accepted
         # input is the resulting stack (C09's history space, at the level of the operators' checkpoints)
-        hists = G.balanced_histories(9 if tier == "thorough" else 8)
+        hists = G.balanced_histories((9 if tier == "thorough" else 8) if prop == "C05" else (8 if tier == "thorough" else 7))
         nsh = do_bundled[1] if do_bundled else NCPU
         for j, h in enumerate(hists):
             if j % nsh != shard:
@@ -1011,6 +1051,8 @@ def run_prop(out: Outcome, level_when_proved: str = "proof") -> None:
     plan = PLANS[prop]
     nshards = NCPU
     per = (200 if thorough else 25) if prop != "C08" else (60 if thorough else 8)
+    if prop == "C06":
+        per *= 3
     jobs = [(prop, s, per, out.tier, seed(), (s, nshards) if (plan["bundled"] or thorough) else None) for s in range(nshards)]
     stats = collections.Counter()
     corr, direct, load_errors, timeouts = [], [], [], []
